@@ -129,6 +129,12 @@ func c17Instances(thorough bool) []c17Inst {
 			out = append(out, c17Inst{Schema: "bracket-after-pipe", Kind: "eq", LHS: "(" + x + ")" + e, RHS: x + " | " + e})
 			out = append(out, c17Inst{Schema: "bracket-in-multiselect", Kind: "guarded", LHS: "[(" + x + ")" + e + "]", RHS: x + " | [" + e + "]", Guard: x})
 		}
+		// 1b. a filter guards what follows it: the right-hand side is evaluated only on the elements the filter keeps
+		for _, g := range [][2]string{{"[?type(@) == 'string']", ".length(@)"}, {"[?type(@) == 'number']", ".abs(@)"}, {"[?type(@) == 'array']", ".sort(@)"}, {"[?type(a) == 'number']", ".ceil(a)"},
+			{"[?type(@) == 'object']", ".keys(@)"}, {"[?type(@) != 'null' && type(@) != 'boolean' && type(@) != 'number']", ".length(@)"}, {"[?a]", ".[a][0]"}, {"[?type(@) == 'string']", ".[length(@), @]"}} {
+			out = append(out, c17Inst{Schema: "filter-guards-rhs", Kind: "eq", LHS: x + g[0] + g[1], RHS: x + g[0] + " | [*]" + g[1]})
+			out = append(out, c17Inst{Schema: "filter-guards-rhs", Kind: "prune", LHS: x + g[0] + g[1], RHS: "map(&" + strings.TrimPrefix(g[1], ".") + ", " + x + g[0] + ")"})
+		}
 		// 8. x.* == values(x) modulo nulls
 		out = append(out, c17Inst{Schema: "star-is-values", Kind: "objvals", LHS: x + ".*", RHS: "values(" + x + ")", Guard: "type(" + x + ")"})
 	}
@@ -173,6 +179,10 @@ func c17Instances(thorough bool) []c17Inst {
 			out = append(out, c17Inst{Big: true, Schema: "index-after-pipe", Kind: "eq", LHS: closed + "[" + i + "]", RHS: x + " | [" + i + "]"})
 			out = append(out, c17Inst{Big: true, Schema: "index-in-projection", Kind: "eq", LHS: "wide[*][" + i + "]", RHS: "wide[*] | [*][" + i + "]"})
 			out = append(out, c17Inst{Big: true, Schema: "index-in-map", Kind: "prune", LHS: "wide[*][" + i + "]", RHS: "map(&@[" + i + "], wide)"})
+			out = append(out, c17Inst{Big: true, Schema: "wildcard-is-map", Kind: "prune", LHS: closed + "[*].abs(@)", RHS: "map(&abs(@), " + closed + ")"})
+			out = append(out, c17Inst{Big: true, Schema: "wildcard-is-map", Kind: "prune", LHS: closed + "[*].[@][0]", RHS: "map(&[@][0], " + closed + ")"})
+			out = append(out, c17Inst{Big: true, Schema: "wildcard-is-map", Kind: "prune", LHS: closed + "[*] | [-1]", RHS: "map(&@, " + closed + ") | [-1]"})
+			out = append(out, c17Inst{Big: true, Schema: "map-length", Kind: "eq", LHS: "length(map(&@, " + closed + "))", RHS: "length(" + closed + ")", Guard: "type(" + closed + ")"})
 			out = append(out, c17Inst{Big: true, Schema: "index-in-multiselect", Kind: "concat", LHS: "[" + closed + "[" + i + "], " + x + " | [" + i + "]]", Parts: []string{"[" + closed + "[" + i + "]]", "[" + x + " | [" + i + "]]"}, Guard: "@"})
 		}
 	}
@@ -353,7 +363,8 @@ func c17Run(r *core.Run) {
 		}
 		return "[" + strings.Join(parts, ",") + "]"
 	}
-	bigDocs := []doc{mkDoc(`{"big":` + seq(300) + `,"wide":[` + seq(300) + `,` + seq(130) + `]}`), mkDoc(`{"big":` + seq(256) + `,"wide":[` + seq(129) + `,` + seq(128) + `]}`), mkDoc(`{"big":[1],"wide":[[1],null]}`)}
+	bigDocs := []doc{mkDoc(`{"big":` + seq(300) + `,"wide":[` + seq(300) + `,` + seq(130) + `]}`), mkDoc(`{"big":` + seq(256) + `,"wide":[` + seq(129) + `,` + seq(128) + `]}`), mkDoc(`{"big":[1],"wide":[[1],null]}`),
+		mkDoc(`{"big":` + seq(66) + `,"wide":[` + seq(65) + `,` + seq(67) + `]}`), mkDoc(`{"big":` + seq(1027) + `,"wide":[` + seq(69) + `,` + seq(1030) + `]}`)}
 	var deepDocs []doc
 	for _, t := range c17DeepDocs {
 		deepDocs = append(deepDocs, mkDoc(t))
